@@ -188,6 +188,23 @@ def c01(tier, seed):
     return S
 
 
+def c02(tier, seed):
+    S = []
+    th = tier == "thorough"
+    shapes = [(0, 0, "true", 0), (0, 1, "false", 0), (1, 2, "false", 1), (2, 0, "false", 0), (2, 3, "false", 1)]
+    if th:
+        shapes = [(L, H, "false", (L + H) % 3) for L in range(0, 4) for H in range(0, 4)] + [(0, 0, "true", 0), (0, 3, "true", 0)]
+    for (L, H, MN, ML) in shapes:
+        for sk_, cs in suites(tier, seed, "c02"):
+            S.append(Spec("c02_verify_%s_L%d_h%d_%s" % (sk_, L, H, MN[0]), "p01::verify_contract::<%s, %d, %d, %s, %d>()" % (cs, L, H, MN, ML), 100, "G", "A",
+                          shape=dict(contract="verify", suite=sk_, L=L, header_shape=H, msgs_none=MN, msg_len_offset=ML), replay="alg", features="prog"))
+    for (L, H, ML) in [(0, 0, 0), (1, 2, 1), (2, 1, 0)] + ([(2, 3, 1), (3, 0, 2), (1, 0, 0)] if th else []):
+        for sk_, cs in (suites(tier, seed, "c02f") if th else one_suite(tier, seed, "c02f%d%d" % (L, H))):
+            S.append(Spec("c02_bitflip_%s_L%d_h%d" % (sk_, L, H), "p01::bitflip_contract::<%s, %d, %d, %d>()" % (cs, L, H, ML), 100, "G", "A",
+                          shape=dict(contract="bitflip", suite=sk_, L=L, header_shape=H, msg_len_offset=ML, flipped_bit="any of 640"), replay="alg", features="prog"))
+    return S
+
+
 def c10(tier, seed):
     S = []
     th = tier == "thorough"
@@ -233,4 +250,37 @@ def c12(tier, seed):
     return S
 
 
-PROPS = {"C01": c01, "C08": c08, "C09": c09, "C10": c10, "C12": c12}
+def c03_specs(tier, seed, edits, tag):
+    S = []
+    th = tier == "thorough"
+    # (L, disclosed mask, permutation, header shape, ph shape)
+    base = [(0, 0, 0, 0, 0), (1, 0, 0, 2, 2), (1, 1, 0, 0, 1), (2, 0, 0, 1, 0), (2, 1, 1, 2, 0), (2, 2, 2, 0, 2), (2, 3, 1, 3, 3), (3, 5, 0, 0, 0), (3, 2, 0, 2, 2)]
+    if th:
+        base = [(L, m, (L + m) % 3, (L + m) % 4, (2 * L + m) % 4) for L in range(0, 4) for m in range(0, 1 << L)]
+    for (L, M, P, H, PHs) in base:
+        for E in edits:
+            if E in (1, 4) and M == 0:
+                continue  # needs a disclosed message
+            if E == 4 and M == (1 << L) - 1:
+                continue  # needs an undisclosed position
+            if E == 2 and H < 2:
+                continue  # edited header is compared with a non-empty original
+            if E == 3 and PHs < 2:
+                continue
+            for sk_, cs in (suites(tier, seed, tag) if th else one_suite(tier, seed, "%s%d%d%d" % (tag, L, M, E))):
+                S.append(Spec("%s_proof_%s_L%d_d%d_p%d_h%d_ph%d_e%d" % (tag, sk_, L, M, P, H, PHs, E),
+                              "p03::proof_flow::<%s, %d, %d, %d, %d, %d, %d, %d>()" % (cs, L, M, P, H, PHs, E, L % 3), 100, "G", "A",
+                              shape=dict(contract="proof_gen -> proof_verify", suite=sk_, L=L, disclosed_mask=M, index_presentation=P, header_shape=H, ph_shape=PHs, edit=E),
+                              replay="alg", features="prog"))
+    return S
+
+
+def c03(tier, seed):
+    return c03_specs(tier, seed, [0], "c03")
+
+
+def c04(tier, seed):
+    return c03_specs(tier, seed, [1, 2, 3, 4], "c04")
+
+
+PROPS = {"C01": c01, "C02": c02, "C03": c03, "C04": c04, "C08": c08, "C09": c09, "C10": c10, "C12": c12}
